@@ -156,6 +156,10 @@ def run_case(case, items):
         elif mode == 'none':    # no agent improves after the first evaluation
             for a in sp.agents:
                 a.position = np.full_like(a.position, min(5.0, 1.0 + j))
+        elif mode == 'count':   # exactly p_j = (j - 1) mod (n + 1) agents improve at the evaluation after hook j >= 1
+            pj = (j - 1) % (len(sp.agents) + 1) if j else len(sp.agents)
+            for i, a in enumerate(sp.agents):
+                a.position = np.full_like(a.position, 4.0 / (j + 1.0) if (i < pj or j == 0) else 5.0)
 
     try:
         Opytimizer(space=space, optimizer=opt, function=Function(pointer=objective)).start(pre_evaluation_hook=hook)
@@ -300,7 +304,8 @@ def check_case(case, items, stats):
                 elif nwr == 0:
                     key = '%s:%s:initial-outside-range' % (case['opt'], hp)
                 elif fv == fv and (close(fv, lo) or close(fv, hi)):
-                    key = '%s:%s:rounding-outside-range' % (case['opt'], hp)
+                    key = '%s:%s:rounding-outside-range:%s' % (case['opt'], hp, circumstance(it, hp0, lo, hi, fv, nwr - 1, n_it,
+                                                                                           case['n_agents']))
                 else:
                     key = '%s:%s:out-of-range' % (case['opt'], hp)
                 rec(key, '%s.%s = %r at observation %d (%s; %d writes so far) is outside [%s, %s] = [%r, %r]; n_iterations = %d, '
@@ -328,6 +333,27 @@ def check_case(case, items, stats):
                         observed=[repr(x) for x in seq])
                     break
     return recs, r
+
+
+def circumstance(it, hp0, lo, hi, v, t, n_it, n_agents):
+    """Which kind of write produced an ulp-level excursion -- a recorded finding covers only its own kind:
+    degenerate-range (lo == hi) | p=n, p=0, interior (counter schedules) | first-/last-iteration, interior."""
+    if lo == hi:
+        return 'degenerate-range'
+    if 'p' in (it.get('vars') or []) and it.get('tree') is not None:
+        env = dict(hp0)
+        env.update({'t': t, 'n_it': n_it, 'n_agents': n_agents})
+        for p in range(n_agents + 1):
+            env['p'] = p
+            try:
+                if defined(it['conds'], env) and close(ev(it['tree'], env), v) and float(ev(it['tree'], env)) == float(v):
+                    return 'p=n' if p == n_agents else ('p=0' if p == 0 else 'interior')
+            except (ZeroDivisionError, OverflowError, ValueError, KeyError):
+                pass
+        return 'unmatched'
+    if t <= 0:
+        return 'first-iteration'
+    return 'last-iteration' if t >= n_it - 1 else 'interior'
 
 
 def special_key(opt, hp, hp0):
